@@ -34,6 +34,14 @@ Operations of a mask script's `steps` (results live in named slots, so that the 
   [rt, idxs, container, slot]  slot = M.to_values(M.to_bitmask(container of members))     (the property's round trip)
   [nb, idxs, slot]  slot = a list of members made by the caller          [tbL, slot, container]  M.to_bitmask(container(slot))
   [ed, slot, edit, i]  the caller edits the list in the slot in place (EDITS)
+  [cv, who, int]  who = 'E': E(int, raise_on_unrecognized=False) by the enumeration; 'M': the same by the mask class
+A mask script may also carry `history` = [[who, int], ...]: lenient conversions made after the mask class exists and
+before any helper is asked (HISTORY_MODES: all by E then all by M, the reverse, value by value in either order, shuffled,
+with repetitions, one class only).  The integers (conversion_pool) mean something to BOTH classes: every small integer,
+the masks of sets the script asks about, single bits, the full mask, defined values and their neighbours, defined mask
+entries.  Each conversion is judged by the property's first clause (judge_conv); the round trip of every subset and every
+step answer is judged exactly as without a history.  (A mask class made with define_bits=False and no extra entries has
+no members - Python refuses to call it at all - so only the enumeration converts there.)
 Every call must give the model's answer for ITS OWN argument, and the same answer as the first time the same question
 was asked in the script: a helper that hands out a shared list is wrong as soon as a caller has edited it.
 """
@@ -304,6 +312,11 @@ def _child_mask(script):
     vals = list(M._enum_values)
     res = {'decorate': 'ok', 'offset': int(M._enum_offset), 'enum_values': ','.join(ex.tok(m) for m in vals) or '-',
            'attrs': ','.join('%s=%d' % (n, int(m.value)) for n, m in M.__members__.items()) or '-', 'rows': [], 'tv': []}
+    exM = _Exec(M)
+    if script.get('history'):
+        # unknown integers seen by the enumeration AND by the mask class (itself an IntEnum of the package) before the
+        # helpers are asked anything: both classes are process-global and grow hidden entries
+        res['history'] = [_convert(E, ex, M, exM, who, v) for who, v in script['history']]
     for idxs in script['subsets']:
         members = [vals[i] for i in idxs]
         row = {}
@@ -332,13 +345,22 @@ def _child_mask(script):
         except BaseException as e:
             res['tv'].append(_err(e))
     if script.get('steps'):
-        res['steps'] = _mask_steps(M, E, ex, vals, script['steps'])
+        res['steps'] = _mask_steps(M, E, ex, vals, script['steps'], exM)
     return res
 
 
-def _mask_steps(M, E, ex, vals, steps):
+def _convert(E, ex, M, exM, who, v):
+    """E(v, raise_on_unrecognized=False) / M(v, raise_on_unrecognized=False) rendered as a member token."""
+    try:
+        return ex.tok(E(v, raise_on_unrecognized=False)) if who == 'E' else exM.tok(M(v, raise_on_unrecognized=False))
+    except BaseException as e:
+        return _err(e)
+
+
+def _mask_steps(M, E, ex, vals, steps, exM=None):
     """The caller's side of a mask script: results are kept in slots and edited in place between calls."""
     import collections
+    exM = exM or _Exec(M)
     slots = {}
     out = []
 
@@ -391,6 +413,8 @@ def _mask_steps(M, E, ex, vals, steps):
                 r = M.to_values(mask=mask) if form == 'kw' else M.to_values(mask)
                 slots[slot] = r
                 out.append(content(r))
+            elif k == 'cv':                     # a lenient conversion by the enumeration ('E') or by the mask class ('M')
+                out.append(_convert(E, ex, M, exM, st[1], st[2]))
             elif k == 'ts':
                 _, hexs, form = st
                 mask = as_mask(hexs, form)
@@ -801,7 +825,7 @@ def subsets_of(n, rng, limit):
 CONTAINERS = ['list', 'tuple', 'set', 'frozenset', 'gen', 'iter', 'rev', 'dict', 'keys', 'deque', 'kwlist']
 
 
-def mutation_steps(values, off, rng, nmasks, names):
+def mutation_steps(values, off, rng, nmasks, names, conv=False):
     """Calls of the three helpers with equal masks / equal sets, repeated, the arguments handed over in different ways
     (positional / keyword, int / bool / mask-class member, list / tuple / set / generator ...), and between the calls
     the caller edits the lists it got back (and lists of its own that it passed in).  `values` = the captured members'
@@ -848,6 +872,15 @@ def mutation_steps(values, off, rng, nmasks, names):
         a = slot()                    # a list of the caller's own, edited between calls that take it
         steps += [['nb', mixed(idxs), a], ['tbL', a, 'same'], ['ed', a, rng.choice(EDITS), rng.randrange(max(n, 1))], ['tbL', a, 'same'],
                   ['ed', a, rng.choice(EDITS), rng.randrange(max(n, 1))], ['tbL', a, rng.choice(['tuple', 'gen', 'set'])]]
+        if conv and int(mk, 16) < 1 << 70:
+            # the mask's own integer (and a member's value) is converted leniently by the enumeration and by the mask class,
+            # in either order, between equal questions: the answers must not move
+            order = rng.choice(['EM', 'ME', 'EEM', 'MME', 'E', 'M'])
+            steps += [['tv', mk, 'int', slot()], ['rt', mixed(idxs), 'list', slot()]]
+            steps += [['cv', w, int(mk, 16)] for w in order]
+            steps += [['cv', rng.choice('EM'), rng.choice(values) + rng.choice([0, 1])]] if values else []
+            steps += [['tv', mk, form_for(mk), slot()], ['ts', mk, 'int'], ['rt', mixed(idxs), rng.choice(CONTAINERS[:-1]), slot()],
+                      ['tb', mixed(idxs), 'name' if names else 'int', 'list'], ['tb', mixed(idxs), 'member', 'tuple']]
     top = max([v - off for v in values] + [0])
     for _ in range(3):                # masks with bits no member has
         mk = '%x' % rng.getrandbits(top + 1 + rng.choice([0, 3, 9]))
@@ -855,6 +888,65 @@ def mutation_steps(values, off, rng, nmasks, names):
         steps += [['tv', mk, 'int', a], ['ed', a, rng.choice(EDITS), rng.randrange(max(n, 1))], ['tv', mk, form_for(mk), slot()],
                   ['ts', mk, 'int'], ['ed', a, rng.choice(EDITS), rng.randrange(max(n, 1))], ['ts', mk, 'kw'], ['tv', mk, 'int', slot()]]
     return steps
+
+
+HISTORY_MODES = ['E-then-M', 'M-then-E', 'each-E-M', 'each-M-E', 'shuffled', 'shuffled-repeated', 'E-only', 'M-only']
+
+
+def conversion_pool(values, off, attr_values, subsets, rng, limit):
+    """Integers that mean something to the enumeration AND to its mask class: every small integer (each is the mask of
+    some set of low members, most are not a defined mask entry; many are not a defined enum value either), the masks of
+    sets the script is going to ask about (the empty, the single-member and the full set among them), the defined values
+    and the defined mask entries themselves and their neighbours."""
+    bits = [v - off for v in values if v >= off]
+    top = max(bits + [0]) + 1
+
+    def mask_of(idxs):
+        return sum(1 << (values[i] - off) for i in set(idxs) if values[i] >= off)
+    pool = list(range(min(1 << top, 24)))
+    asked = [mask_of(s) for s in subsets]
+    pool += [mask_of([i]) for i in range(len(values))] + [mask_of(range(len(values)))]
+    pool += rng.sample(asked, min(len(asked), limit))
+    pool += list(values) + [v + d for v in values for d in (-1, 1)] + sorted(attr_values)
+    seen, out = set(), []
+    for v in pool:
+        if v not in seen and abs(v) < 1 << 70:
+            seen.add(v)
+            out.append(v)
+    head, tail = out[:min(1 << top, 24)], out[min(1 << top, 24):]
+    rng.shuffle(tail)
+    return head + tail[:max(0, limit - len(head))]
+
+
+def history_of(pool, mode, rng):
+    """The order in which the two classes get to see the pool's integers with raise_on_unrecognized=False."""
+    pool = list(pool)
+    rng.shuffle(pool)
+    if mode == 'E-then-M':
+        return [['E', v] for v in pool] + [['M', v] for v in sorted(pool)]
+    if mode == 'M-then-E':
+        return [['M', v] for v in pool] + [['E', v] for v in sorted(pool, reverse=True)]
+    if mode == 'each-E-M':
+        return [[w, v] for v in pool for w in 'EM']
+    if mode == 'each-M-E':
+        return [[w, v] for v in pool for w in 'ME']
+    if mode == 'E-only':
+        return [['E', v] for v in pool]
+    if mode == 'M-only':
+        return [['M', v] for v in pool]
+    h = [[w, v] for v in pool for w in 'EM']
+    if mode == 'shuffled-repeated':
+        h += rng.sample(h, len(h) // 2)
+    rng.shuffle(h)
+    return h
+
+
+def with_history(sc, values, off, attr_values, mode, rng, limit):
+    pool = conversion_pool(values, off, attr_values, sc['subsets'], rng, limit)
+    sc['history'] = history_of(pool, mode, rng)
+    sc['history_mode'] = mode
+    sc['raw_masks'] = [v for v in pool if v >= 0] + sc['raw_masks'][:20]       # to_values of the plain integer, too
+    return sc
 
 
 def mask_scripts(ctx, infos, masks):
@@ -881,11 +973,34 @@ def mask_scripts(ctx, infos, masks):
                         'pre': [vs[-1] + 1, vs[-1] + 2, vs[0] - 1, 77] if j % 2 else [],
                         'subsets': subsets_of(n, rng, limit), 'steps': steps,
                         'raw_masks': [rng.getrandbits(rng.choice([4, 8, 16, 40])) for _ in range(20)] if not big else [0, 1, 5]})
+        # histories: the same helpers after the enumeration and the mask class derived from it (both process-global, both
+        # growing a hidden entry per unknown integer) have seen unknown integers - the same integers, in some order
+        for x, mode in enumerate(HISTORY_MODES if ctx.thorough else rng.sample(HISTORY_MODES[:6], 1 + synthetic)):
+            valid = [o for o, _ in offs if o <= vs[0]]
+            off, db = valid[(x + rng.randrange(2)) % len(valid)], rng.random() < 0.75
+            sc = {'kind': 'mask', 'enum': info.q, 'offset': off, 'define_bits': db, 'names': db and not big, 'pre': [],
+                  'subsets': subsets_of(n, rng, 32 if big else 256 if ctx.thorough else 64), 'raw_masks': [], 'steps': []}
+            if not big:
+                sc['steps'] = mutation_steps(captured, off, rng, 3 if ctx.thorough else 2, db, conv=True)
+            attr_values = [1 << (v - off) for v in captured] if db else []
+            sc = with_history(sc, captured, off, attr_values, mode, rng, 16 if big else 40)
+            if not db:
+                # a mask class without bit definitions is an Enum without members: Python refuses to call it at all
+                # (TypeError of the functional API), it has no conversions; only the enumeration sees the integers
+                sc['history'] = [h for h in sc['history'] if h[0] == 'E']
+                sc['steps'] = [st for st in sc['steps'] if st[:2] != ['cv', 'M']]
+            out.append(sc)
     for m in masks:
         n = len(m['enum_values'])
+        values = [v for _, v in m['enum_values']]
         out.append({'kind': 'mask', 'package_mask': m['qualname'], 'enum': m['base'], 'names': True, 'pre': [200, 201],
                     'subsets': subsets_of(n, rng, 4096), 'raw_masks': [rng.getrandbits(32) for _ in range(200)] + [0xFFFFFFFF],
-                    'steps': mutation_steps([v for _, v in m['enum_values']], m['offset'], rng, 24 if ctx.thorough else 12, True)})
+                    'steps': mutation_steps(values, m['offset'], rng, 24 if ctx.thorough else 12, True)})
+        for mode in HISTORY_MODES:
+            sc = {'kind': 'mask', 'package_mask': m['qualname'], 'enum': m['base'], 'names': True, 'pre': [],
+                  'subsets': subsets_of(n, rng, 4096 if ctx.thorough else 128), 'raw_masks': [rng.getrandbits(32) for _ in range(20)],
+                  'steps': mutation_steps(values, m['offset'], rng, 8 if ctx.thorough else 3, True, conv=True)}
+            out.append(with_history(sc, values, m['offset'], [v for _, v in m['attrs']], mode, rng, 96 if ctx.thorough else 48))
     return out
 
 
@@ -1084,6 +1199,29 @@ def judge_enum(ctx, info, script, toks):
     return bad
 
 
+def judge_conv(tag, who, v, ans, e_values, m_values, before):
+    """One lenient conversion of a mask script's history (the enumeration 'E' or the mask class 'M', both IntEnum classes of
+    the package): the first clause of the property.  Returns (signature, text) or None."""
+    what = '%s(%d, raise_on_unrecognized=False)' % ('the enumeration' if who == 'E' else 'the mask class', v)
+    defined = v in e_values if who == 'E' else str(v) in m_values
+    site = 'C17/call-lenient/' if who == 'E' else 'C17/mask-class-call-lenient/'
+    m = MEMBER.match(ans)
+    if ans.startswith('!') or not m:
+        return site + 'raises', '%s: %s raised / gave %s after %s' % (tag, what, ans[:80], before[-6:])
+    if '?' in m.group(4):
+        return site.replace('call-lenient/', '') + 'result-not-a-member', '%s: %s gave %s' % (tag, what, ans[:80])
+    if '~' in m.group(4):
+        return site.replace('call-lenient/', '') + 'member-identity-changed', ('%s: %s gave a member equal to, but not the same object as, '
+                                                                          'the one returned earlier: %s' % (tag, what, ans[:80]))
+    if int(m.group(2)) != v:
+        return site + 'value-not-preserved', '%s: %s gave a member with value %s' % (tag, what, m.group(2))
+    if defined and m.group(3) != 'R':
+        return site + 'defined-value-flagged-unrecognized', '%s: %s is a defined value and came back as %s' % (tag, what, ans[:80])
+    if not defined and m.group(3) != 'U':
+        return site + 'unknown-not-flagged', '%s: %s is not a defined value and came back as %s' % (tag, what, ans[:80])
+    return None
+
+
 def judge_steps(script, res, tag):
     """The steps of a mask script.  Returns (violations [(signature, text, step index)], model requests
     [(driver line, what the real class answered, step index, what)]).  Oracle: (1) the property's round trip - the list
@@ -1099,6 +1237,8 @@ def judge_steps(script, res, tag):
     ok_offset = all(v >= off for v in vals)
     first = {}
     edits = []
+    m_values = set(a.rpartition('=')[2] for a in res['attrs'].split(',')) if res['attrs'] != '-' else set()    # as text: may be huge
+    convs = []
 
     def items_of(content):
         if content == '-':
@@ -1116,10 +1256,12 @@ def judge_steps(script, res, tag):
             first[key] = (ans, j)
         elif first[key][0] != ans:
             between = [script['steps'][e] for e in edits if first[key][1] < e < j]
+            cvs = [st[1:] for st in script['steps'][first[key][1]:j] if st[0] == 'cv']
             bad.append(('C17/mask/%s-differs-between-equal-calls' % what.split('(')[0],
                         '%s: %s = %r at step %d, but the equal call at step %d gave %r; in between the caller edited lists it had '
-                        'got back or passed in: %s' % (tag, what, ans[:160].lstrip('='), j, first[key][1], first[key][0][:160].lstrip('='),
-                                                       between[:6]), j))
+                        'got back or passed in: %s%s' % (tag, what, ans[:160].lstrip('='), j, first[key][1], first[key][0][:160].lstrip('='),
+                                                       between[:6], '; and these integers were converted leniently by the enumeration '
+                                                       '(E) / the mask class (M): %s' % cvs[:8] if cvs else ''), j))
 
     for j, (st, ans) in enumerate(zip(script['steps'], res['steps'])):
         k = st[0]
@@ -1127,6 +1269,11 @@ def judge_steps(script, res, tag):
             continue
         if k == 'ed':
             edits.append(j)
+        elif k == 'cv':
+            v = judge_conv(tag, st[1], st[2], ans, set(vals), m_values, convs)
+            convs.append(st[1:])
+            if v:
+                bad.append((v[0], v[1] + ' (step %d)' % j, j))
         elif k == 'tv':
             req.append(('masktv %d %s %s' % (off, plain, st[1]), ans, j, 'to_values(0x%s)' % st[1]))
             same_question(('tv', st[1]), 'to_values(0x%s)' % st[1], ans, j)
@@ -1146,8 +1293,10 @@ def judge_steps(script, res, tag):
         elif k == 'tbL':
             arg, _, got = ans.rpartition('|')
             its = items_of(arg)
-            if its is None:
-                bad.append(('C17/mask/result-not-a-list-of-members', '%s: the list in slot %s holds %s' % (tag, st[1], arg[:120]), j))
+            if its is None or any(x not in vals for x in its):
+                # (the caller's edits only ever put captured members into a list: anything else came from a helper)
+                bad.append(('C17/mask/result-not-a-list-of-members', '%s: the list in slot %s holds %s, the captured members are %s'
+                            % (tag, st[1], arg[:120], plain[:200]), j))
                 continue
             req.append(('masktb %d - %s' % (off, ','.join(map(str, its)) or '-'), got, j, 'to_bitmask(list in slot %s)' % st[1]))
             same_question(('tb', frozenset(its)), 'to_bitmask(%s of %s)' % (st[2], sorted(set(its))), got, j)
@@ -1156,9 +1305,12 @@ def judge_steps(script, res, tag):
             mask, _, back = ans.partition('|')
             want = ','.join(members[i] for i in range(len(members)) if i in set(idxs)) or '-'
             if ok_offset and not ans.startswith('!') and back != want:
+                hist = [list(h) for h in script.get('history', [])] + convs
                 bad.append(('C17/mask/roundtrip-differs' + ('-after-caller-edits' if edits else ''),
                             '%s: to_values(to_bitmask(S)) = [%s] for S = [%s] (mask 0x%s) at step %d; before it the caller edited '
-                            'lists it had got back: %s' % (tag, back[:160], want[:160], mask[:40], j, [script['steps'][e] for e in edits][-4:]), j))
+                            'lists it had got back: %s%s' % (tag, back[:160], want[:160], mask[:40], j, [script['steps'][e] for e in edits][-4:],
+                                                           '; lenient conversions before it (E = by the enumeration, M = by the mask '
+                                                           'class): %s' % hist[-8:] if hist else ''), j))
             items = ','.join(str(vals[i]) for i in idxs) or '-'
             if ans.startswith('!'):
                 req.append(('masktb %d - %s' % (off, items), ans, j, 'to_bitmask(S) of a round trip'))
@@ -1214,6 +1366,21 @@ def judge_mask(ctx, script, res, lines, pend):
     vals = [int(MEMBER.match(m).group(2)) for m in members]
     ok_offset = all(v >= off for v in vals)
     plain = ','.join('%s=%d' % (MEMBER.match(m).group(1), v) for m, v in zip(members, vals)) or '-'
+    history = [list(h) for h in script.get('history', [])]
+    after = ''
+    if history:
+        m_values = set(a.rpartition('=')[2] for a in res['attrs'].split(',')) if res['attrs'] != '-' else set()    # as text: may be huge
+        for j, ((who, v), ans) in enumerate(zip(history, res.get('history', []))):
+            r = judge_conv(tag, who, v, ans, set(vals), m_values, history[:j])
+            if r:
+                bad.append((r[0], r[1], {'script': dict(script, subsets=[], raw_masks=[], steps=[], history=history[:j + 1])}))
+        ctx.count('mask_scripts_with_unknown_value_history')
+        ctx.count('mask_history_conversions_by_enum', sum(1 for w, _ in history if w == 'E'))
+        ctx.count('mask_history_conversions_by_mask_class', sum(1 for w, _ in history if w == 'M'))
+        ctx.count('mask_history_values_seen_by_both_classes',
+                  len(set(v for w, v in history if w == 'E') & set(v for w, v in history if w == 'M')))
+        after = ('; before it these integers had been converted with raise_on_unrecognized=False by the enumeration (E) / the mask '
+                 'class (M): %s%s' % (history[:12], ' ...' if len(history) > 12 else ''))
     for idxs, row in zip(script['subsets'], res['rows']):
         want = ','.join(members[i] for i in range(len(members)) if i in set(idxs)) or '-'
         rp = {'script': dict(script, subsets=[idxs], raw_masks=[], steps=[]), 'subset_members': [members[i] for i in idxs]}
@@ -1221,16 +1388,16 @@ def judge_mask(ctx, script, res, lines, pend):
             if row['mask'].startswith('!'):
                 bad.append(('C17/mask/to_bitmask-raises', '%s: to_bitmask(%s) raised %s' % (tag, rp['subset_members'], row['mask']), rp))
             elif row.get('back') != want:
-                bad.append(('C17/mask/roundtrip-differs', '%s: to_values(to_bitmask(S)) = [%s] for S = [%s] (mask 0x%s)'
-                            % (tag, row.get('back'), want, row['mask'][:40]), rp))
+                bad.append(('C17/mask/roundtrip-differs', '%s: to_values(to_bitmask(S)) = [%s] for S = [%s] (mask 0x%s)%s'
+                            % (tag, row.get('back'), want, row['mask'][:40], after), rp))
             if script.get('names') and 'bymask' in row and not row['mask'].startswith('!'):
                 if row['bymask'].startswith('!'):
                     # e.g. a base enum with mixed-case names: to_bitmask upper-cases the string.  The property speaks of
                     # members; the string form is compared with the model only.
                     ctx.count('mask_by_name_raises')
                 elif row.get('byback') != want:
-                    bad.append(('C17/mask/roundtrip-by-name-differs', '%s: to_values(to_bitmask(names of S)) = [%s] for S = [%s]'
-                                % (tag, row.get('byback', row['bymask']), want), rp))
+                    bad.append(('C17/mask/roundtrip-by-name-differs', '%s: to_values(to_bitmask(names of S)) = [%s] for S = [%s]%s'
+                                % (tag, row.get('byback', row['bymask']), want, after), rp))
         items = ','.join(str(vals[i]) for i in idxs) or '-'
         lines.append('masktb %d - %s' % (off, items))
         pend.append(('tb', row['mask'], rp, tag))
@@ -1320,6 +1487,8 @@ def run_scripts(ctx, infos, scripts):
                     reported.add(sig)
                     if isinstance(rp, tuple):
                         rp = {'script': shrink_steps(sc, rp[1], sig)}
+                    if rp is not None and rp['script'].get('history'):
+                        rp = dict(rp, script=shrink_history(rp['script'], sig))
                     ctx.violation(sig, desc, rp if rp is not None else {'script': dict(sc, subsets=sc['subsets'][:1], steps=[])})
     t0 = time.time()
     outs = ctx.driver(lines)
@@ -1350,6 +1519,48 @@ def run_scripts(ctx, infos, scripts):
 class _NoCount:
     def count(self, *a, **k):
         pass
+
+    def case(self, *a, **k):
+        pass
+
+
+def shrink_history(script, sig):
+    """Fewer lenient conversions before the helpers are asked, the same violation: halves, then one at a time."""
+    hist = [list(h) for h in script.get('history', [])]
+
+    def fails(cand):
+        sc = dict(script, history=cand)
+        r = run_forked([sc], 1)[0].get('ok')
+        if not r or r.get('decorate') != 'ok':
+            return False
+        return any(s == sig for s, _, _ in judge_mask(_NoCount(), sc, r, [], []))
+    try:
+        if not hist or not fails(hist):
+            return script
+        if fails([]):
+            return dict(script, history=[])
+        for _ in range(16):
+            h = len(hist) // 2
+            if h and fails(hist[h:]):
+                hist = hist[h:]
+            elif h and fails(hist[:h]):
+                hist = hist[:h]
+            else:
+                break
+        chunk = max(1, len(hist) // 4)        # (the two conversions that matter may sit in different halves)
+        while True:
+            i = len(hist) - chunk
+            while i > -chunk:
+                cand = hist[:max(i, 0)] + hist[i + chunk:]
+                if len(cand) < len(hist) and fails(cand):
+                    hist = cand
+                i -= chunk
+            if chunk == 1:
+                break
+            chunk = max(1, chunk // 2)
+    except fv.InfraError:
+        pass
+    return dict(script, history=hist)
 
 
 def shrink_enum(ctx, info, sc, i, sig=None):
@@ -1460,7 +1671,14 @@ def check(ctx):
         'to_values / to_string / to_bitmask / round-trip calls with equal masks and equal sets (int / bool / mask member / keyword; '
         'list, tuple, set, frozenset, generator, iterator, reversed, dict, keys view, deque; members, plain ints, names) in which the '
         'caller edits (11 kinds of edit) every list it got back or passed in between the calls; every call must equal the model\'s '
-        'answer for its own argument and the first answer to the same question.  A case is one script (distinct = '
+        'answer for its own argument and the first answer to the same question.  Mask helpers after unknown values: per class one '
+        'or two extra mask scripts (thorough: 8), per package mask class 8, in which a pool of integers - all small integers, the '
+        'masks of the sets asked about, single bits, the full mask, defined values and their neighbours, defined mask entries - is '
+        'first converted with raise_on_unrecognized=False by the enumeration AND by the mask class derived from it (8 orders: one '
+        'class then the other, value by value, shuffled, repeated, one class only), then the same subset round trips by member / '
+        'name, to_values of the plain integers, and step lists in which the mask\'s own integer is converted by both classes '
+        'between equal questions; each conversion judged by the first clause, every helper answer by the unchanged oracle.  '
+        'A case is one script (distinct = '
         'distinct enum and operation list; non-trivial = contains a lenient conversion) or one (mask class, subset) pair '
         '(non-trivial = non-empty subset) or the step list of one mask class.')
     ctx.assumptions += [
